@@ -150,7 +150,8 @@ def verdicts(ctx, run, sched, hz, obs, stop, early, src, case):
 def one(ctx, schema, doc, src, variables, value_fn, seed, p_async, policy, early, stop, with_signal, base_case):
     case = {**base_case, "schedule_seed": seed, "p_async": p_async, "policy": policy, "early": early, "stop": repr(stop), "with_signal": with_signal}
     run, sched, hz, obs = run_incremental(schema, doc, variables, value_fn, seed, p_async=p_async, policy=policy, early=early, stop=stop,
-                                          with_signal=with_signal, p_iter=0.9 if base_case["seed"] % 11 == 6 else 0.35)
+                                          with_signal=with_signal, p_iter=0.9 if base_case["seed"] % 11 == 6 else 0.35,
+                                          source_burst=[1, 1, 1, 3, 8][seed % 5])
     try:
         ctx.case()
         if stop is None:
@@ -218,12 +219,44 @@ def check_request(ctx, seed, k):
         ctx.sample({"source": src[:500], "variables": variables, "stop_states_seen": [list(s) for s in list(states)[:6]]})
 
 
+def long_stream_cases(ctx, seed):
+    """A streamed list far longer than the stream item queue's buffer (100 entries), items completing asynchronously,
+    producers running ahead of the consumer: stops meet a producer parked on the full buffer."""
+    schema = c04.rich_inc()
+    src = 'query Q { users @stream(initialCount: 0) { name } }'
+    doc = parse(src)
+    inner = make_value(schema, seed, 0.0)
+    n_items = 100 + 5 + seed % 60
+
+    def value_fn(path, parent_type_name, field_name, args, return_type):
+        if list(path) == ['users']:
+            return [{'__typename': 'User', '__pk': ('users', i)} for i in range(n_items)]
+        return inner(path, parent_type_name, field_name, args, return_type)
+    base_case = {"seed": seed, "source": src, "variables": {}, "fault_rate": 0.0, "long_stream": n_items}
+    for early, policy in ((True, 'source-first'), (True, 'slow-consumer'), (False, 'source-first')):
+        for stop in (('aclose', 0), ('aclose', 1), ('aclose', 2), ('abort', Reason('stop'))):
+            ctx.count("long_stream_runs")
+            case = {**base_case, "schedule_seed": seed, "p_async": 1.0, "policy": policy, "early": early, "stop": repr(stop), "with_signal": stop[0] == 'abort'}
+            run, sched, hz, obs = run_incremental(schema, doc, {}, value_fn, seed, p_async=1.0, policy=policy, early=early, stop=stop,
+                                                  with_signal=stop[0] == 'abort', p_iter=1.0, p_item_async=0.0,
+                                                  source_burst=[1000, 1000, 7][seed % 3])
+            try:
+                ctx.case()
+                ctx.count("stopped_runs")
+                ctx.count("aclose_stops" if stop[0] == 'aclose' else "abort_stops")
+                verdicts(ctx, run, sched, hz, obs, stop, early, src, case)
+            finally:
+                run.close()
+
+
 def run_shard(ctx):
     from ..mon import loop
     loop.selftest()
     base = ctx.seed * 19_000_043 + ctx.shard * 1_000_151
     for k in range(ctx.n(900, 15000)):
         check_request(ctx, base + k, k)
+    for k in range(ctx.n(1, 6)):
+        long_stream_cases(ctx, base + 31 * k)
     # the template families (streams on async sources, fragments split into several units of work, overlapping and
     # list-nested fragments) get a share of their own: they are where stops meet half-built incremental state
     for k in range(ctx.n(800, 12000)):
@@ -233,4 +266,6 @@ def run_shard(ctx):
 
 
 def replay(ctx, case):
+    if case.get("long_stream"):
+        return long_stream_cases(ctx, case["seed"])
     check_request(ctx, case["seed"], 1)
